@@ -1,0 +1,50 @@
+//go:build verif
+
+// Contracts for package datamatrix/encoder, read by the govc verification-condition generator in /verif.
+// Comments only.
+
+package encoder
+
+// ---------------------------------------------------------------- symbol table (ISO/IEC 16022 table 7)
+
+//@ spec func hreg(n int) int = n == 1 ? 1 : ((n == 2 || n == 4) ? 2 : (n == 16 ? 4 : (n == 36 ? 6 : 0)))
+//@ spec func vreg(n int) int = (n == 1 || n == 2) ? 1 : (n == 4 ? 2 : (n == 16 ? 4 : (n == 36 ? 6 : 0)))
+//@ spec func symW(s *SymbolInfo) int = hreg(s.dataRegions) * s.matrixWidth + hreg(s.dataRegions) * 2
+//@ spec func symH(s *SymbolInfo) int = vreg(s.dataRegions) * s.matrixHeight + vreg(s.dataRegions) * 2
+
+// admits(s, ...): entry s passes the shape and min/max size filters
+//@ spec func admits(s *SymbolInfo, shape SymbolShapeHint, minSize *gozxing.Dimension, maxSize *gozxing.Dimension) bool = !(shape == SymbolShapeHint_FORCE_SQUARE && s.rectangular) && !(shape == SymbolShapeHint_FORCE_RECTANGLE && !s.rectangular) && (minSize == nil || !(symW(s) < minSize.width || symH(s) < minSize.height)) && (maxSize == nil || !(symW(s) > maxSize.width || symH(s) > maxSize.height))
+
+//@ func SymbolInfo_Lookup(dataCodewords int, shape SymbolShapeHint, minSize *gozxing.Dimension, maxSize *gozxing.Dimension, fail bool) (r *SymbolInfo, e error)
+//@   property C13
+//@   globals symbols
+//@   ensures r != nil ==> e == nil
+//@   ensures r != nil ==> exists k int :: 0 <= k && k < len(symbols) && r == symbols[k] && admits(symbols[k], shape, minSize, maxSize) && dataCodewords <= symbols[k].dataCapacity && (forall j int :: 0 <= j && j < k ==> !(admits(symbols[j], shape, minSize, maxSize) && dataCodewords <= symbols[j].dataCapacity))
+//@   ensures r == nil ==> (forall j int :: 0 <= j && j < len(symbols) ==> !(admits(symbols[j], shape, minSize, maxSize) && dataCodewords <= symbols[j].dataCapacity))
+//@   ensures r == nil ==> (fail == (e != nil))
+//@   modifies nothing
+//@   loop 0: invariant -1 <= rangeindex && rangeindex < len(symbols)
+//@   loop 0: invariant forall j int :: 0 <= j && j <= rangeindex ==> !(admits(symbols[j], shape, minSize, maxSize) && dataCodewords <= symbols[j].dataCapacity)
+//@   loop 0: decreases len(symbols) - rangeindex
+
+// the table itself: 30 entries; mapping-matrix modules = 8 * (data + error) up to the unused corner of four
+// square sizes; interleaved blocks add up; capacities ordered within each shape; the 144x144 entry holds 1558
+//@ lemma symbolTable(k int)
+//@   property C13 C08
+//@   globals symbols
+//@   opt nia=on
+//@   proof cases k 0 29
+//@   let s = symbols[k]
+//@   ensures len(symbols) == 30 && s != nil && hreg(s.dataRegions) >= 1 && vreg(s.dataRegions) >= 1 && hreg(s.dataRegions) * vreg(s.dataRegions) == s.dataRegions
+//@   ensures s.rectangular == (symW(s) != symH(s))
+//@   ensures hreg(s.dataRegions)*s.matrixWidth * (vreg(s.dataRegions)*s.matrixHeight) / 8 == s.dataCapacity + s.errorCodewords
+//@   ensures k < 29 ==> s.rsBlockData >= 1 && s.dataCapacity % s.rsBlockData == 0 && (s.dataCapacity / s.rsBlockData) * s.rsBlockError == s.errorCodewords
+//@   ensures k == 29 ==> s.dataCapacity == 1558 && s.errorCodewords == 620 && symW(s) == 144 && symH(s) == 144 && 8*156 + 2*155 == s.dataCapacity && 10 * s.rsBlockError == s.errorCodewords
+
+//@ lemma symbolOrder(i int, j int)
+//@   property C13
+//@   globals symbols
+//@   opt nia=on
+//@   proof cases i 0 29, j 0 29
+//@   requires i < j && symbols[i].rectangular == symbols[j].rectangular
+//@   ensures symbols[i].dataCapacity < symbols[j].dataCapacity
